@@ -9,8 +9,8 @@ PROPS = [json.loads(l)["id"] for l in open("/verif/properties.jsonl")]
 TECH = "contract-based deductive verification of the real code: VCs generated from go/ssa by the home-made engine tgvc, discharged by z3/cvc5"
 CLAIMED = {
  "C01": dict(
-   text="Per-operation clauses only (no whole-language simulation proof): deductive proof for all inputs that every arithmetic / comparison arm of Int, Float, Char, String, Time BinaryOp equals the spec written from docs/operators.md, that unsupported pairs yield ErrInvalidOperator, that + on arrays/bytes returns the specified elements in storage owned by the result, and that append() follows its contract; every implementation refines the interface-level contract of Object.BinaryOp.",
-   note="Not decided: control flow, scoping, calls, parser, composition of operations (see DESIGN.md). Assumed: go/ssa, tgvc encoder, solvers; integer division by zero is a panic site (not an error) and is listed in the evidence.",
+   text="Per-operation clauses only (no whole-language simulation proof): deductive proof for all inputs that every arithmetic / comparison arm of Int, Float, Char, String, Time BinaryOp equals the spec written from docs/operators.md, that unsupported pairs yield ErrInvalidOperator, that + on arrays/bytes returns the specified elements in storage owned by the result, and that append() follows its contract; every implementation refines the interface-level contract of Object.BinaryOp. Every builtin function (len, range, format, copy, the conversions, bytes, time, append, delete, splice, type predicates) is proved free of index, slice, nil, type-assertion and allocation-size failures for all argument lists (two genuine panics were found this way and repaired: splice with a huge count, bytes with a negative size).",
+   note="Not decided: control flow, scoping, calls, parser, composition of operations (see DESIGN.md). Assumed: go/ssa, tgvc encoder, solvers; integer division by zero is a panic site (not an error) and is listed in the evidence. Termination of range() with a step close to the integer limit is not decided (partial correctness).",
    ref="DESIGN.md §4 C01"),
  "C02": dict(
    text="Encoding: MakeInstruction / ReadOperands against the operand-width table parser.OpcodeOperands (read from source on every run). VM side: step contracts on the real dispatch loop (*VM).run prove for every opcode arm and all machine states that the VM consumes exactly the operand bytes the table declares, moves the operand stack by the specified amount, leaves frames consistent on call, and never continues on an unknown opcode. Compile side: emit / changeOperand contracts, and for Compile, compileAssign and compileLogical the frame (bytes change only inside the current scope's instruction storage or fresh memory), the preservation of already emitted bytes and of outer scopes, so that every jump placeholder that is patched still holds the opcode that was emitted.",
@@ -37,7 +37,7 @@ CLAIMED = {
    note="The compiler's choice of family per scope for ordinary identifiers and the program-transformation equivalences are not decided.",
    ref="DESIGN.md §4 C11"),
  "C14": dict(
-   text="Error identity: step contracts proving that every error exit of the dispatch loop stores exactly the error a callee returned (BinaryOp, IndexGet, native Call) unless it is one of the sentinels it rewrites, that the engine raises ErrObjectAllocLimit / ErrStackOverflow only in their situations, that a continuing iteration never carries an error; (*VM).Run is proved to return an error whose unwrap chain contains that error (fmt.Errorf's %w modelled from the format literal, loop invariant over the trace loop).",
+   text="Error identity: step contracts proving that every error exit of the dispatch loop stores exactly the error a callee returned (BinaryOp, IndexGet, native Call) unless it is one of the sentinels it rewrites, that the engine raises ErrObjectAllocLimit / ErrStackOverflow only in their situations, that a continuing iteration never carries an error; (*VM).Run is proved to return an error whose unwrap chain contains that error (fmt.Errorf's %w modelled from the format literal, loop invariant over the trace loop). (*CompiledFunction).SourcePos returns the position recorded for ip, or for ip-1 when ip has none (loop invariant: no recorded offset was skipped), and NoPos before the start.",
    note="Source positions (SourcePos arithmetic, source-map rebasing in optimizeFunc, statement attribution) are not covered. Run requires v.err == nil on entry: Run does not reset the field, so a VM that failed once must not be re-run (observation, outside the listed properties).",
    ref="DESIGN.md §4 C14"),
  "C16": dict(
@@ -45,15 +45,15 @@ CLAIMED = {
    note="Agreement with the equivalent loop, captured-parameter boxes across iterations and the compiler's emission of RET after calls are not covered.",
    ref="DESIGN.md §4 C16"),
  "C12": dict(
-   text="De-duplication only: loop invariants on the real (*Bytecode).RemoveDuplicates prove, for all constant pools, that every old index is mapped to a valid new index whose constant has the same payload - the same object for functions and un-named maps, the same non-empty module name for module maps, the same value for ints, strings and chars - and that every per-type table points at a constant of that kind with that key.",
+   text="De-duplication only: loop invariants on the real (*Bytecode).RemoveDuplicates prove, for all constant pools, that every old index is mapped to a valid new index whose constant has the same payload - the same object for functions and un-named maps, the same non-empty module name for module maps, the same value for ints, strings and chars - and that every per-type table points at a constant of that kind with that key. The decode fix-up fixDecodedObject returns the engine's sentinels for decoded booleans and undefined and keeps every other constant as decoded.",
    note="updateConstIndexes (instruction rewriting) has an assumed frame; inferModuleName is abstracted as a pure function of the map (its frame is proved); float payloads are compared by kind only; gob encode/decode fidelity (external library) and fixDecodedObject are not decided.",
    ref="DESIGN.md §4 C12"),
  "C13": dict(
-   text="Per-function clauses on the real compiler: an export statement in a module compiler always emits IMMUT; RET 1, a forked module compiler is a fresh compiler with the given symbol table, the same module getter and file-import setting, symbol-table Fork/Parent link tables as specified, fields that link compilers and tables are write-once; the compiled-module cache is written in this compiler and handed to the parent compiler's store, and a lookup is answered by the parent when there is one (so store and lookup meet at the outermost compiler).",
+   text="Per-function clauses on the real compiler: an export statement in a module compiler always emits IMMUT; RET 1, a forked module compiler is a fresh compiler with the given symbol table, the same module getter and file-import setting, symbol-table Fork/Parent link tables as specified, fields that link compilers and tables are write-once; the compiled-module cache is written in this compiler and handed to the parent compiler's store, and a lookup is answered by the parent when there is one (so store and lookup meet at the outermost compiler). checkCyclicImports rejects a module path equal to this compiler's, hands the question to the parent compiler otherwise, and accepts at the outermost compiler.",
    note="The induction along the parent chain is a meta-argument over the per-call clauses (call records are ghost state). compileModule (runs the parser, uses recover) and the loop statements have assumed contracts; import-graph termination and cycle exactness are not decided.",
    ref="DESIGN.md §4 C13"),
  "C15": dict(
-   text="Data structure against an abstract view, proved per API function on the real code: FromInterface / ToInterface against the docs/interoperability.md table for every scalar, bytes, time and []Object; Compiled.Set/Get/IsDefined/GetAll read and write exactly globals[globalIndexes[name]] (undeclared names rejected / read as undefined, an unset slot reads as undefined and never as Go nil, every other global unchanged); Script.Add/Remove update exactly one entry of the variable table; the typed accessors of Variable equal the conversion contracts; Copy of every container (what Clone relies on) shares no mutable storage with the original.",
+   text="Data structure against an abstract view, proved per API function on the real code: FromInterface / ToInterface against the docs/interoperability.md table for every scalar, bytes, time and []Object; Compiled.Set/Get/IsDefined/GetAll read and write exactly globals[globalIndexes[name]] (undeclared names rejected / read as undefined, an unset slot reads as undefined and never as Go nil, every other global unchanged); Script.Add/Remove update exactly one entry of the variable table; the typed accessors of Variable equal the conversion contracts; Copy of every container (what Clone relies on) shares no mutable storage with the original. Compiled.Clone gives the clone global slots of its own, a fresh copy for every mutable global, and leaves unset slots unset.",
    note="The induction over API call sequences is a meta-argument over these per-call contracts; Script.Compile / Run / Clone themselves and nested map / slice conversion clauses are not covered; mutex operations are no-ops in the model.",
    ref="DESIGN.md §4 C15"),
  "C20": dict(
